@@ -26,7 +26,7 @@ type refVT struct {
 	savedRow     int
 	savedCol     int
 	saved        bool
-	vprAlt       int // xterm routes VPR through CUD: the alternative row that is also accepted
+	vprAlt       int  // xterm routes VPR through CUD: the alternative row that is also accepted
 	cursorColAny bool // IL/DL: cursor column unconstrained
 }
 
